@@ -232,7 +232,30 @@ def query_list(draw, atoms, conds, lo=3, hi=6, outside=True, consts=True):
     qs = []
     for _ in range(k):
         kind = draw(_weighted([("rand", 35), ("mat", 45), ("out", 5 if outside else 0),
-                               ("triv", 5), ("neg", 10)]))
+                               ("triv", 5), ("neg", 10), ("deeptwin", 4 if len(atoms) >= 2 else 0)]))
+        if kind == "deeptwin":
+            # two queries that differ only deep inside a nested formula (a lossy rendering or
+            # cache key that truncates deep sub-formulas cannot tell them apart)
+            x, y = draw(st.permutations(atoms))[:2]
+            z = draw(st.sampled_from(atoms))
+            d = draw(st.integers(4, 8))
+            op = draw(st.sampled_from(["a", "o"]))
+            pad = fm.V(x) if op == "a" else fm.Not(fm.V(x))
+
+            def nest(core, depth):
+                for _ in range(depth):
+                    core = (op, pad, core)
+                return core
+            where = draw(st.sampled_from(["cons", "ant"]))
+            if where == "cons":
+                A0 = fm.V(x) if draw(st.booleans()) or not conds else draw(st.sampled_from(conds))[1]
+                qs.append((nest(fm.V(y), d), A0))
+                qs.append((nest(draw(st.sampled_from([fm.Not(fm.V(y)), fm.V(z), fm.Not(fm.V(z))])), d), A0))
+            else:
+                B0 = draw(literal(atoms))
+                qs.append((B0, nest(fm.V(y), d)))
+                qs.append((B0, nest(draw(st.sampled_from([fm.Not(fm.V(y)), fm.V(z), fm.Not(fm.V(z))])), d)))
+            continue
         if kind == "rand" or not conds:
             A = draw(formula(atoms, SHAPES_ANT if consts else SHAPES_NOCONST, consts=consts))
             B = draw(formula(atoms, SHAPES_CONS if consts else SHAPES_NOCONST, consts=consts))
@@ -260,8 +283,29 @@ def query_list(draw, atoms, conds, lo=3, hi=6, outside=True, consts=True):
             y = draw(literal(atoms))
             A, B = draw(st.sampled_from([(fm.F, y), (fm.And(y, fm.Not(y)), x), (x, fm.Or(x, y)),
                                          (x, fm.T), (x, fm.F), (fm.And(x, y), fm.Not(y))]))
+        if kind in ("rand", "mat", "neg") and len(atoms) >= 2:
+            # construction instead of rejection: a query decided by a short cut (A, A&B or A&notB
+            # unsatisfiable) is mostly replaced by one over two distinct literals, which never is
+            ats = all_atoms_of(A, B)
+            a, b = fm.tt(A, ats), fm.tt(B, ats)
+            if (not (a & b) or not (a & ~b & fm.full(len(ats)))) and draw(st.integers(0, 4)) > 0:
+                x, y = draw(st.permutations(atoms))[:2]
+                A = fm.V(x) if draw(st.booleans()) else fm.Not(fm.V(x))
+                B = fm.V(y) if draw(st.booleans()) else fm.Not(fm.V(y))
+                if conds and draw(st.booleans()):
+                    Bi, Ai = draw(st.sampled_from(conds))
+                    A = fm.And(A, Ai) if draw(st.booleans()) else A
         qs.append((B, A))
     return qs
+
+
+def all_atoms_of(*fs):
+    out = []
+    for f in fs:
+        for x in fm.atoms_of(f):
+            if x not in out:
+                out.append(x)
+    return out or ["a"]
 
 
 def mk_case(atoms, conds, queries, **extra):
@@ -288,6 +332,47 @@ def all_atoms(atoms, base, queries):
             if x not in out:
                 out.append(x)
     return out
+
+
+@st.composite
+def multiclause_case(draw, hi=5, nq=4):
+    """Bases whose conditionals have multi-clause non-falsification CNFs (conjunctive
+    consequents, disjunctive antecedents) sharing a layer, with queries whose antecedent
+    falsifies one of them in some worlds 'expensively' (several clauses) and in others
+    'cheaply' together with a second conditional - the region where a MaxSAT cost order
+    differs from set inclusion / cardinality."""
+    n = draw(st.integers(4, hi))
+    atoms = ATOMS[:n]
+    perm = list(draw(st.permutations(atoms)))
+    ant = draw(st.sampled_from([fm.T, fm.V(perm[0]), fm.V(perm[0])]))
+    rest = perm[1:]
+    k = draw(st.integers(2, min(3, len(rest) - 1)))
+
+    def lit(a):
+        return fm.V(a) if draw(st.integers(0, 3)) > 0 else fm.Not(fm.V(a))
+
+    c1 = [lit(a) for a in rest[:k]]
+    e = lit(rest[k])
+    conds = [(fm.conj(c1), ant), (e, ant)]
+    if draw(st.booleans()) and len(rest) > k + 1:
+        conds.append((lit(rest[k + 1]), draw(st.sampled_from([ant, fm.And(ant, c1[0]), fm.T]))))
+    if draw(st.integers(0, 2)) == 0:
+        conds.append((draw(literal(atoms)), fm.Or(draw(literal(atoms)), draw(literal(atoms)))))
+    conds = list(draw(st.permutations(conds)))
+    qs = []
+    for _ in range(nq):
+        parts = [ant] if ant != fm.T else []
+        parts.append(fm.Not(c1[draw(st.integers(0, k - 1))]))
+        others = [fm.Not(x) for x in c1 if fm.Not(x) != parts[-1]]
+        alt = fm.Or(fm.Not(e), fm.conj(others)) if draw(st.integers(0, 3)) > 0 else fm.Or(fm.Not(e), others[0])
+        if draw(st.integers(0, 4)) > 0:
+            parts.append(alt)
+        A = fm.conj(parts)
+        B = draw(st.sampled_from([fm.Or(fm.conj(c1[1:]), e), e, fm.conj(c1[1:]), fm.Or(c1[-1], e), fm.And(c1[-1], e),
+                                  fm.Not(e), draw(literal(atoms))]))
+        qs.append((B, A))
+    conds = repair_strong(atoms, conds)
+    return mk_case(atoms, conds, qs, family="multiclause")
 
 
 @st.composite
